@@ -151,6 +151,12 @@ func (g *gen) tree(depth int, errContainers bool, pool *[]int) int {
 		g.do(opRec{K: "err", A: []int{p}, Hidden: true, Flag: g.r.Bool()})
 		h = g.last()
 	}
+	if _, isErr := g.m.regs[h].(*tengo.Error); !isErr && g.r.Chance(1, 5) {
+		// immutable(<literal>) inside the literal: a shallow-immutable layer in the middle of the tree
+		if g.do(opRec{K: "immut", A: []int{h}, Flag: true, Hidden: true}) {
+			h = g.last()
+		}
+	}
 	*pool = append(*pool, h)
 	return h
 }
@@ -238,10 +244,7 @@ func (g *gen) step() {
 		g.do(opRec{K: "immut", A: []int{h}, Flag: true})
 	case 3: // freeze(<fresh literal>): the whole tree is private to the result
 		h := g.topTree(false)
-		if g.do(opRec{K: "freeze", A: []int{h}, Flag: flag}) {
-			m.private[h] = true
-			m.addWatch(g.last(), true, "freeze(private tree)")
-		}
+		g.do(opRec{K: "freeze", A: []int{h}, Flag: flag, Watch: true}) // Watch: deep snapshot of the result (the tree is private)
 	case 4: // immutable(x) of a live mutable value: aliased, not watched
 		if h, ok := g.pick(anyObj); ok {
 			g.do(opRec{K: "immut", A: []int{h}})
